@@ -80,6 +80,10 @@ func (f *Frame) heapWF(name, h, alloc string) {
 			ks := strings.Split(name, "|")[1]
 			f.ctx.Fact(fmt.Sprintf("(forall ((m Ptr) (k %s)) (! (=> %s (or (= (select (select %s m) k) nil) (and (< (pobj (select (select %s m) k)) %s) (not (islocalobj (pobj (select (select %s m) k))))))) :pattern ((select (select %s m) k))))", ks, livem, h, h, alloc, h, h))
 		}
+		// pointer-keyed maps: every key in the domain refers to an allocated object
+		if strings.HasPrefix(name, "Mdom|Ptr|") {
+			f.ctx.Fact(fmt.Sprintf("(forall ((m Ptr) (k Ptr)) (! (=> (and %s (select (select %s m) k)) (or (= k nil) (and (< (pobj k) %s) (not (islocalobj (pobj k)))))) :pattern ((select (select %s m) k))))", livem, h, alloc, h))
+		}
 		// slice-valued maps: the backing array of every stored slice is allocated
 		if strings.HasPrefix(name, "Mval|") && strings.HasSuffix(name, "|Slice") {
 			ks := strings.Split(name, "|")[1]
@@ -313,6 +317,11 @@ func (f *Frame) instrWrites(in ssa.Instruction, w *WriteSet) {
 		d, v := mapHeaps(f.ctx, x.Map.Type().Underlying().(*types.Map))
 		w.Heaps[d], w.Heaps[v], w.Heaps[mapLenHeap(f.ctx, x.Map.Type().Underlying().(*types.Map))] = true, true, true
 	case *ssa.Call:
+		if f.framedNoModsCall(x.Common()) {
+			// the callee changes no object that exists before the call: the cells of the objects
+			// it allocates are described by its contract in the current heap versions
+			return
+		}
 		w.add(f.callWrites(x.Common()))
 	case *ssa.Defer:
 		w.add(f.callWrites(x.Common()))
@@ -1316,4 +1325,49 @@ func (f *Frame) loopInvariants(l *loop) []Clause {
 		return ls.Invariants
 	}
 	return nil
+}
+
+// framedNoModsCall: the call goes to a callee under a framed contract without a modifies clause
+// and without ghost writes (verified, or an assumed contract), or to an uncontracted function that
+// syntactically writes only objects it allocates: no object existing before the call changes.
+func (f *Frame) framedNoModsCall(cc *ssa.CallCommon) bool {
+	if _, ok := cc.Value.(*ssa.Builtin); ok {
+		return false
+	}
+	noGhost := func(ws []string) bool {
+		for _, h := range ws {
+			if strings.HasPrefix(h, "G_") {
+				return false
+			}
+		}
+		return true
+	}
+	if cc.IsInvoke() {
+		ic := f.eng.ifaceContract(cc)
+		return ic != nil && !ic.Pure && !ic.WritesAll && len(ic.Modifies) == 0 && !ic.NoFrame && ic.HasWrites && len(ic.Writes) == 0
+	}
+	callee := cc.StaticCallee()
+	if callee == nil {
+		return false
+	}
+	if specialCallee(callee) != "" {
+		return false
+	}
+	if fc := f.eng.contractFor(callee); fc != nil {
+		if fc.Inline || fc.NoFrame || fc.WritesAll || len(fc.Modifies) != 0 || !noGhost(fc.Writes) {
+			return false
+		}
+		if fc.SpecOnly || fc.Trusted {
+			return len(fc.Writes) == 0
+		}
+		// verified contract: its body may close channels etc. (ghost writes are inferred)
+		w := f.eng.writesOf(f.ctx, callee)
+		for h := range w.Heaps {
+			if strings.HasPrefix(h, "G_") {
+				return false
+			}
+		}
+		return true
+	}
+	return false
 }
